@@ -81,6 +81,13 @@ func runC01(c *Ctx) {
 		c.info("R9", "filesystem.heartBeat/absent", "-", "no heartBeat function (the heartbeat is written elsewhere)")
 	}
 
+	// R10: the verdict 'stale' (and with it the take-over of a lock) rests on listings and stats of the lock directory. A helper on
+	// that path that loses a failure — an error overwritten by the outcome of the next step, a failing side that returns
+	// success — turns "I could not look" into "there is no heartbeat file": the lock of a live holder is judged by the age of its
+	// directory and taken over.
+	c.rule("R10", "in everything the staleness verdict reaches inside the filesystem package, an error assigned to a variable is read before it is overwritten and a failing side does not return success", 20)
+	c.staleVerdictErrorsTravel("R10")
+
 	try := c.fn(fsPkgRel, "(*RemoteLockFile).TryLock")
 	lock := c.fn(fsPkgRel, "(*RemoteLockFile).Lock")
 	unlock := c.fn(fsPkgRel, "(*RemoteLockFile).Unlock")
@@ -498,4 +505,23 @@ func runC01(c *Ctx) {
 		})
 	})
 	c.check(good, "R4", fname(unlock)+"/removes", c.pos(unlock.Pos()), "Unlock removes lockPath()", "Unlock does not remove lockPath()")
+}
+
+// staleVerdictErrorsTravel: errOverwrittenRule and errDropRule over everything IsStale reaches in the filesystem package
+// (C01/R10, C17/S9).
+func (c *Ctx) staleVerdictErrorsTravel(rule string) {
+	is := c.fn(fsPkgRel, "(*RemoteLockFile).IsStale")
+	if is == nil {
+		return
+	}
+	var fns []*ssa.Function
+	for f := range c.reachable([]*ssa.Function{is}, false, inPkg(fsPkgRel)) {
+		fns = append(fns, f)
+	}
+	sortFuncs(fns)
+	for _, f := range fns {
+		c.errOverwrittenRule(rule, f)
+		c.errDropRule(rule, f)
+	}
+	c.Extra["functions_reached_by_the_staleness_verdict"] = len(fns)
 }
